@@ -1,9 +1,9 @@
 --------------------------- MODULE Write_MpqFormat ---------------------------
 (* Direction 2 of C02, reference side: TLC evaluates the reference writer (MpqFormat!RefWrite) on  *)
 (* the concretised cases (file contents already cut into sectors and, where requested, compressed  *)
-(* by Python's zlib/bz2) and emits the archive bytes in the standard format, plus -- where a named  *)
-(* deviation of the library applies to some file -- the same files laid out in the library-reader  *)
-(* dialect.  Every archive is read back by the reference reader before it is handed to the library *)
+(* by Python's zlib/bz2) and emits the archive bytes in the standard format, plus -- where named   *)
+(* deviations of the library can apply to some file -- variant archives in which every such file is *)
+(* laid out under one combination of its deviations (variant j = each file's j-th combination).  Every archive is read back by the reference reader before it is handed to the library *)
 (* (selfok): an archive the reference itself cannot read would be a defect of the model, not of    *)
 (* the library.  TLC also picks the absent names to probe: one that collides with the first file's *)
 (* home slot (if the pool has one), one arbitrary.                                                 *)
@@ -11,10 +11,10 @@ EXTENDS MpqFormat, Json, IOUtils, TLC
 
 Rec == ndJsonDeserialize(IOEnv.WCASES)
 
-Prefix(len) == [pi \in 1..len |-> (pi * 7) % 251]
+Prefix(len, user) == IF user /\ len >= 16 THEN UserDataPrefix(len) ELSE [pi \in 1..len |-> (pi * 7) % 251]
 CfgOf(r)   == [ver |-> r.cfg.ver, shift |-> r.cfg.shift, hcount |-> r.cfg.hcount, ndel |-> r.cfg.ndel,
-               hibt |-> r.cfg.hibt, prefix |-> Prefix(r.cfg.prefixlen)]
-FileOf(f)  == [name |-> f.nb, fsize |-> f.fsize, enc |-> f.enc, single |-> f.single, cflag |-> f.cflag,
+               hibt |-> r.cfg.hibt, prefix |-> Prefix(r.cfg.prefixlen, r.cfg.userdata)]
+FileOf(f)  == [name |-> f.nb, locale |-> f.locale, crc |-> f.crc, fsize |-> f.fsize, enc |-> f.enc, single |-> f.single, cflag |-> f.cflag,
                sectors |-> [si \in 1..Len(f.sectors) |-> [m |-> f.sectors[si].m, p |-> f.sectors[si].p]]]
 
 Encode(r) ==
@@ -24,23 +24,32 @@ Encode(r) ==
       wf    == \A fi \in 1..Len(files) : FileWellFormed(files[fi], ssize)
       std   == RefWrite(files, cfg, Std)
       names == {files[fi].name : fi \in 1..Len(files)}
+      neutral == {fi \in 1..Len(files) : files[fi].locale = 0}
       back  == RefRead(std, names, Std)
-      labels == [fi \in 1..Len(files) |-> DevLabels(files[fi].name, back[files[fi].name])]
       selfok == /\ wf
                 /\ OpenArchive(std).res = "ok" /\ OpenArchive(std).base = Len(cfg.prefix)
-                /\ \A fi \in 1..Len(files) :
-                     /\ back[files[fi].name].res = "ok"
+                /\ \A fi \in neutral :                     \* a neutral-locale lookup must find the neutral entry
+                     /\ back[files[fi].name].res = "ok" /\ back[files[fi].name].locale = 0
+                     /\ back[files[fi].name].crc \in {"none", "ok"}
                      /\ back[files[fi].name].sectors = ExpectSectors(files[fi], ssize)
                      /\ back[files[fi].name].fsize = files[fi].fsize
-      anydev == \E fi \in 1..Len(files) : labels[fi] # {}
+      \* per file: the combinations of reader-side deviations that can matter, smallest first
+      tailp(f) == \E si \in 1..Len(f.sectors) : Len(UnitBytes(f.sectors[si])) % 4 # 0
+      cands(f) == CandLabels(f.name, f.enc, f.single, f.cflag, f.crc, f.fsize, IF tailp(f) THEN 1 ELSE 0, Len(f.sectors), "r")
+                  \ (IF tailp(f) THEN {} ELSE {"tail"})
+      subs   == [fi \in 1..Len(files) |-> SubsetSeqs(cands(files[fi]))]
+      nvar   == FoldLeft(LAMBDA acc, fi : IF Len(subs[fi]) > acc THEN Len(subs[fi]) ELSE acc, 0, [fi \in 1..Len(files) |-> fi])
+      \* variant archive vj: file fi written under its vj-th combination (standard if it has fewer)
+      variant(vj) == RefWriteD(files, cfg, [fi \in 1..Len(files) |->
+                                 IF vj <= Len(subs[fi]) THEN DialectOf(subs[fi][vj]) ELSE Std])
       pool   == r.absentpool
       coll   == {ai \in 1..Len(pool) : HomeSlot(pool[ai], cfg.hcount) = HomeSlot(files[1].name, cfg.hcount)}
       a1     == IF coll = {} THEN 1 ELSE CHOOSE ai \in coll : \A a2 \in coll : ai <= a2
       a2     == IF a1 = Len(pool) THEN 1 ELSE Len(pool)
   IN  [ case |-> r.case, selfok |-> selfok,
         std |-> std,
-        lib |-> IF anydev THEN RefWrite(files, cfg, LibR) ELSE <<>>,
-        labels |-> [fi \in 1..Len(files) |-> SetToSortSeq(labels[fi], LAMBDA x, y : TRUE)],
+        vars |-> [vj \in 1..nvar |-> variant(vj)],
+        labels |-> [fi \in 1..Len(files) |-> [vj \in 1..Len(subs[fi]) |-> LabelSeq(subs[fi][vj])]],
         absent |-> <<a1, a2>> ]
 
 Out == [ri \in 1..Len(Rec) |-> Encode(Rec[ri])]
